@@ -14,6 +14,7 @@ from pvp import Violation, Group, Runner
 from c20_common import *
 
 CAT = json.load(open(os.path.join(os.path.dirname(os.path.abspath(__file__)), "c20_catalogue.json")))
+KWNAMES = json.load(open(os.path.join(os.path.dirname(os.path.abspath(__file__)), "c20_kwnames.json")))  # frozen on the unchanged tree
 TWIN_FULL = set((e["subject"], e["name"], e["args"][0][4:]) for e in CAT if e.get("rhs_full_ok") and len(e["args"]) == 1 and e["args"][0].startswith("arr:"))
 POOL = Pool()
 LENGTHS = [0, 1, 2, 199, 200, 201, 202, 257, 1000]
@@ -97,6 +98,24 @@ def interp(p):
         diff = [i for i in range(min(len(r0), len(r1))) if r0[i] != r1[i]] if isinstance(r0, list) and isinstance(r1, list) else []
         raise Violation("schedule/result-depends-on-partition", "%s: result under schedule cuts=%r order=%r tids=%r mode=%d workers=%d differs from the no-pool result at positions %r (e.g. %r vs %r)" % (
             where, [c * n >> 16 for c in sched["cuts"]], sched["order"], sched["tids"], sched["mode"], sched["workers"], diff[:8], r1[diff[0]] if diff else r1, r0[diff[0]] if diff else r0))
+    # module functions are also called by keyword, with the argument names catalogued on the unchanged tree: the
+    # result must be the positional one (atan2(y=.., x=..): the names carry the meaning of the arguments)
+    if tag == "func" and str(len(e["args"])) in KWNAMES.get(e["name"], {}) and n <= 300:
+        names_ = KWNAMES[e["name"]][str(len(e["args"]))]
+        keep_, kargs_ = [], []
+        for jj, k in enumerate(e["args"]):
+            v_, ka_ = build_arg(k, n, a + jj + 1, b + 2 * jj)
+            kargs_.append(v_)
+            keep_.append(ka_)
+        try:
+            rk = getattr(imath, e["name"])(**dict(zip(names_, kargs_)))
+        except Exception as ex:
+            raise Violation("keyword/call-raises", "%s called as %s(%s) raised %r (argument names catalogued on the unchanged tree)" % (where, e["name"], ", ".join(n_ + "=..." for n_ in names_), ex))
+        ck = snapshot(rk) if type(rk).__name__.endswith("Array") else None
+        if ck is not None and ck != r0:
+            diff = [i for i in range(min(len(ck), len(r0))) if ck[i] != r0[i]]
+            raise Violation("keyword/result-differs-from-positional", "%s: %s(%s) differs from the positional call at positions %r (e.g. %r vs %r)" % (where, e["name"], ", ".join(n_ + "=..." for n_ in names_), diff[:6], ck[diff[0]] if diff else ck, r0[diff[0]] if diff else r0))
+        labels.add("keyword_call")
     for o_ in (out0, _o):
         if o_.get("strided") and not o_.get("neighbours_intact", True):
             raise Violation("strided-subject/neighbouring-members-modified", "%s: the subject is the member view of an aggregate array; the operation changed other members of the parent's elements" % where)
@@ -378,7 +397,7 @@ RACE_PASS = bool(os.environ.get("VP_RACE_PASS"))
 GROUPS = [] if RACE_PASS else [
     Group("catalogue_sweep", None, interp, 0, 0,
           "complete sweep: every one of the %d catalogued vectorised entry points (array methods/operators x argument-kind combinations array/scalar/masked, module functions, scalar-object methods taking arrays) x lengths {2, 201, 257} (thorough: {0,2,199,201,257,1000}) x generated schedules; one length per entry (thorough: two) runs with the subject and/or the array arguments laid out as member views of aggregate arrays (V3fArray.y, C3cArray.g, Box3fArray.max: stride 3 or 2), where other members of the parent's elements must stay untouched; non-trivial = length > 200, dispatched to the pool, >= 2 non-empty chunks executed out of order" % len(CAT),
-          required_labels=["dispatched", "concurrent", "scalar_oracle_exact", "mismatch_raises", "method", "func", "scalar", "inplace", "masked_subject", "masked_subject_unmasked_length_rhs", "masked_subject_masked_rhs_unmasked_length", "scalar_fold_oracle", "strided_subject", "strided_argument", "argument_is_member_view_of_subject", "mismatch_empty_raises"], items=sweep_items),
+          required_labels=["dispatched", "concurrent", "scalar_oracle_exact", "mismatch_raises", "method", "func", "scalar", "inplace", "masked_subject", "masked_subject_unmasked_length_rhs", "masked_subject_masked_rhs_unmasked_length", "scalar_fold_oracle", "strided_subject", "strided_argument", "argument_is_member_view_of_subject", "keyword_call", "mismatch_empty_raises"], items=sweep_items),
     Group("schedules", PROG, interp, 2400, 40000,
           "random (entry, length in {0,1,2,199,200,201,202,257,1000}, data seeds, masked self, schedule: up to 8 chunks incl. empty ones, permutation, worker ids, serial/concurrent); non-trivial as above",
           required_labels=["dispatched"]),
